@@ -7,6 +7,7 @@ import NxsModel.Dispatch
 import NxsModel.Lemmas.Accept
 import NxsModel.Lemmas.Pad
 import NxsModel.Props.C05
+import NxsModel.Lemmas.R7Built
 namespace Nxs.C17
 open Nxs
 open Nxs.Pad (ClientReq)
@@ -200,5 +201,141 @@ theorem align_idempotent (p : Nat) (d : Bytes) : Pad.dataAlign p (Pad.dataAlign 
 
 example : Pad.dataAlign 4 [1, 2, 3, 4, 5] = [1, 2, 3, 4, 5, 0, 0, 0] := by decide
 example : Pad.dataAlign 4 [1, 2, 3, 4] = [1, 2, 3, 4] := by decide
+
+/-! ## Round 7 additions
+
+  * `align_minimal` — minimality of the padding (no shorter zero extension reaches a multiple of `p`);
+  * `any_request_padding_invisible` — EVERY `ClientReq`, also outside `Valid` (section 5 listed "outside them the
+    builders refuse and nothing is written" as K/O only): either the builder refuses and nothing is written under
+    any padding, or the receiver reacts (it never ignores the request) and reacts alike under every padding;
+  * `history_padding_invisible` — a whole history of requests written through ONE interface whose write padding
+    CHANGES between the writes, received by ONE device (`Requests.devRun`: dispatcher → callback → decoder →
+    per-channel state): states and outcomes after every write equal those of the unpadded history;
+  * `padding_only_writes_invisible` — padding-only writes anywhere in ANY history of writes (any bytes) never change
+    the state the device ends in. -/
+
+/-- round 7: the padding is MINIMAL — no extension by fewer zeros reaches a multiple of `p` -/
+theorem align_minimal (p : Nat) (d : Bytes) (hp : 0 < p) (k' : Nat) (hk : p ∣ d.length + k') :
+    (Pad.dataAlign p d).length ≤ d.length + k' := by
+  obtain ⟨k, _, h1, he⟩ := align_spec p d
+  obtain ⟨hlt, hdiv⟩ := h1 hp
+  rw [he, List.length_append, List.length_replicate]
+  by_cases hle : k ≤ k'
+  · omega
+  · exfalso
+    obtain ⟨a, ha⟩ := hdiv
+    obtain ⟨b, hb⟩ := hk
+    have hab : p * a = p * b + (k - k') := by omega
+    have hlt' : b < a := by
+      apply Nat.lt_of_mul_lt_mul_left (a := p); omega
+    have : p * (b + 1) ≤ p * a := Nat.mul_le_mul_left p hlt'
+    rw [Nat.mul_add] at this
+    omega
+
+example : (Pad.dataAlign 4 [1, 2, 3, 4, 5]).length ≤ 5 + 7 := align_minimal 4 _ (by omega) 7 ⟨3, rfl⟩
+
+/-- round 7: EVERY request the client can try to build, in or out of range, every two paddings: either the builder
+    refuses and nothing is written under any padding, or it returns `f`, what is written is `f` + zeros, the
+    receiver does react to `f` and reacts to the padded write exactly as to `f` -/
+theorem any_request_padding_invisible (r : ClientReq) :
+    (∃ e, r.build = .error e ∧ ∀ p, r.written p = .error e) ∨
+    (∃ f, r.build = .ok f ∧ Dispatch.recvHandle f ≠ .ignored ∧
+      ∀ p, r.written p = .ok (Pad.dataAlign p f) ∧
+        Dispatch.recvHandle (Pad.dataAlign p f) = Dispatch.recvHandle f) := by
+  cases hb : r.build with
+  | error e => exact Or.inl ⟨e, rfl, fun p => by unfold ClientReq.written; rw [hb]⟩
+  | ok f =>
+    have hB := R7.clientReq_built r f hb
+    exact Or.inr ⟨f, rfl, R7.built_not_ignored f hB,
+      fun p => ⟨by unfold ClientReq.written; rw [hb], R7.built_align p f hB⟩⟩
+
+/-- an out-of-range request that is nevertheless built and written: channel 200 of a 3-channel device -/
+example : ¬ Valid (.enSingle 3 200 true) ∧ ((ClientReq.enSingle 3 200 true).build).toOption.isSome = true :=
+  ⟨by simp [Valid], by decide +kernel⟩
+
+/-- the writes a history of `(write padding at that moment, request)` pairs produces on ONE interface object
+    (a refused builder writes nothing) -/
+def writesOf (h : List (Nat × ClientReq)) : List Bytes :=
+  h.filterMap fun x => match x.2.written x.1 with | .ok w => some w | .error _ => none
+
+/-- the device's reaction to a write depends on the write only through what the dispatcher makes of it -/
+theorem devRecv_congr (n : Nat) (s : Requests.DevSt) (w w' : Bytes)
+    (h : Dispatch.recvHandle w = Dispatch.recvHandle w') : Requests.devRecv n s w = Requests.devRecv n s w' := by
+  unfold Requests.devRecv; rw [h]
+
+/-- round 7: **padding changes between writes, one device.**  For every history of requests (ANY arguments), each
+    written under its own padding value (the padding may change before every write), received by one long-lived
+    device state: the state and outcome after every write are those of the same history written without padding. -/
+theorem history_padding_invisible (n : Nat) (h : List (Nat × ClientReq)) : ∀ (s : Requests.DevSt),
+    Requests.devRun n s (writesOf h) = Requests.devRun n s (writesOf (h.map fun x => (0, x.2))) := by
+  induction h with
+  | nil => intro s; rfl
+  | cons x xs ih =>
+    intro s
+    rcases any_request_padding_invisible x.2 with ⟨e, _, hw⟩ | ⟨f, _, _, hw⟩
+    · have e1 : writesOf (x :: xs) = writesOf xs := by
+        simp only [writesOf, List.filterMap_cons, hw x.1]
+      have e2 : writesOf ((x :: xs).map fun x => (0, x.2)) = writesOf (xs.map fun x => (0, x.2)) := by
+        simp only [writesOf, List.map_cons, List.filterMap_cons, hw 0]
+      rw [e1, e2]; exact ih s
+    · have e1 : writesOf (x :: xs) = Pad.dataAlign x.1 f :: writesOf xs := by
+        simp only [writesOf, List.filterMap_cons, (hw x.1).1]
+      have e2 : writesOf ((x :: xs).map fun x => (0, x.2)) =
+          Pad.dataAlign 0 f :: writesOf (xs.map fun x => (0, x.2)) := by
+        simp only [writesOf, List.map_cons, List.filterMap_cons, (hw 0).1]
+      have e3 : Requests.devRecv n s (Pad.dataAlign x.1 f) = Requests.devRecv n s (Pad.dataAlign 0 f) :=
+        devRecv_congr n s _ _ (by rw [(hw x.1).2, (hw 0).2])
+      rw [e1, e2]
+      simp only [Requests.devRun]
+      rw [e3, ih]
+
+/-- a history with three different paddings, one refused request (divider 300) and one out-of-range channel -/
+example : (Requests.devRun 3 ⟨[false, false, false], [0, 0, 0]⟩
+      (writesOf [(16, .enVec 3 [true, false, true]), (0, .divSingle 3 1 300), (5, .divSingle 3 2 200),
+        (255, .enSingle 3 200 true), (3, .start true)])).map (·.1) =
+    [⟨[true, false, true], [0, 0, 0]⟩, ⟨[true, false, true], [0, 0, 200]⟩, ⟨[true, false, true], [0, 0, 200]⟩,
+      ⟨[true, false, true], [0, 0, 200]⟩] := by decide +kernel
+
+/-- the state a device ends in after a history of writes -/
+def devFinal (n : Nat) (s : Requests.DevSt) (ws : List Bytes) : Requests.DevSt :=
+  ws.foldl (fun s w => (Requests.devRecv n s w).1) s
+
+/-- a padding-only write, itself padded or not, fires nothing and leaves the device state as it was -/
+theorem padding_only_no_effect (n : Nat) (s : Requests.DevSt) (p k : Nat) :
+    Requests.devRecv n s (Pad.dataAlign p (List.replicate k 0)) = (s, .ok none) := by
+  obtain ⟨k', _, _, he⟩ := align_spec p (List.replicate k 0)
+  rw [he, List.replicate_append_replicate]
+  unfold Requests.devRecv
+  rw [padding_only_ignored]
+
+/-- round 7: padding-only writes (all-zero writes of any length, the empty write included) anywhere in ANY history
+    of writes — any bytes, requests or noise — do not change the state the device ends in -/
+theorem padding_only_writes_invisible (n : Nat) (ws : List Bytes) : ∀ (s : Requests.DevSt),
+    devFinal n s (ws.filter fun w => !(w.all (· = 0))) = devFinal n s ws := by
+  induction ws with
+  | nil => intro s; rfl
+  | cons w ws ih =>
+    intro s
+    by_cases hz : w.all (· = 0) = true
+    · have hw : w = List.replicate w.length 0 := by
+        apply List.eq_replicate_iff.mpr
+        refine ⟨rfl, fun b hb => ?_⟩
+        have := List.all_eq_true.mp hz b hb
+        simpa using this
+      have h0 : Requests.devRecv n s w = (s, .ok none) := by
+        have := padding_only_no_effect n s 0 w.length
+        rw [align_noop_when_aligned 0 _ (Or.inl rfl), ← hw] at this
+        exact this
+      rw [List.filter_cons_of_neg (by rw [hz]; decide)]
+      simp only [devFinal, List.foldl_cons, h0]
+      exact ih s
+    · have hz' : w.all (· = 0) = false := (Bool.not_eq_true _).mp hz
+      rw [List.filter_cons_of_pos (by rw [hz']; decide)]
+      simp only [devFinal, List.foldl_cons]
+      exact ih _
+
+example : devFinal 2 ⟨[false, false], [0, 0]⟩
+    [[0, 0, 0], [0x55, 0x09, 0x00, 0x07, 0x00, 0x00, 0x1e, 0x79, 0x00, 0, 0, 0], [], [0, 0]] =
+    ⟨[false, false], [30, 0]⟩ := by decide +kernel
 
 end Nxs.C17
